@@ -617,7 +617,12 @@ func strictEqualityComparison(x Value, y Value) bool {
 //	Array       -> []interface{}
 //	Object      -> map[string]interface{}
 func (v Value) Export() (interface{}, error) {
-	return v.export(), nil
+	var result interface{}
+	// Reading the properties runs getters, which may throw.
+	err := catchPanic(func() {
+		result = v.export()
+	})
+	return result, err
 }
 
 func (v Value) export() interface{} {
